@@ -18,6 +18,10 @@ LOGICAL = [("arrow_array::array::dictionary_array::DictionaryArray", ["logical_n
 
 def run(ck, tier):
     F = factsmod.Facts("ws")
+    from . import influence as _infl
+    _infl.run(ck, F, 'C02')
+    from . import c02x
+    c02x.run(ck, F)
     ck.rule("C02.equal-total", "arrow_data::equal::equal_values routes every DataType constructor to a comparison implementation", floor=41)
     variants = dtm.enum_variants(F, "arrow_schema::datatype::DataType")
     fn = F.resolve("arrow_data::equal::equal_values")
